@@ -164,6 +164,93 @@ pub fn enc_tree(t: &Tree) -> String { let mut out = vec!["B".to_string(), t.cfg.
 pub fn enc_list(l: Vec<String>) -> String { if l.is_empty() { "-".into() } else { l.join("|") } }
 pub fn enc_fixture(f: &[(String, Vec<u8>)]) -> String { if f.is_empty() { "-".into() } else { f.iter().map(|(p, c)| format!("{}={}", hex(p.as_bytes()), hex(c))).collect::<Vec<_>>().join(",") } }
 
+// ------------------------------------------------------------------------------------------------ fault scripts (C16)
+/// One rule of a fault script `f:<rule>+<rule>…`: `<kind>.<selector>[.<exit status 1..255>|.sig]` (default status 7).
+/// kind: `pb` pack build, `sb` pack sbom download, `rd` docker run --detach, `rr` docker run without --detach, `ln` docker logs,
+/// `lf` docker logs --follow, `lg` either, `ex` docker exec, `po` docker port, `rm` docker rm, `ri` docker rmi, `vr` docker volume
+/// remove, `nr` every command except docker rm, `any`.
+/// selector: `a` every invocation of the kind; `g<k>` the k-th line of the stand-in log if it is of the kind; `f<k>` every
+/// invocation of the kind from line k on; `c<j>` every invocation of the kind that has the name of the j-th container as one
+/// of its words (the `--name` of the j-th `docker run` of the log, that `docker run` included).
+#[derive(Clone, Debug, PartialEq)]
+pub enum FaultSel { All, At(usize), From(usize), Ctr(usize) }
+#[derive(Clone, Debug)]
+pub struct FaultRule { pub kind: String, pub sel: FaultSel, pub status: String }
+pub const FAULT_KINDS: [&str; 14] = ["pb", "sb", "rd", "rr", "ln", "lf", "lg", "ex", "po", "rm", "ri", "vr", "nr", "any"];
+
+pub fn parse_fault_rules(s: &str) -> Option<Vec<FaultRule>> {
+    s.split('+').map(|r| {
+        let p: Vec<&str> = r.split('.').collect();
+        if p.len() != 2 && p.len() != 3 { return None; }
+        if !FAULT_KINDS.contains(&p[0]) { return None; }
+        let num = |t: &str| t.parse::<usize>().ok().filter(|n| *n > 0 && t.bytes().all(|b| b.is_ascii_digit()));
+        let sel = match p[1].as_bytes().first()? {
+            b'a' if p[1] == "a" => FaultSel::All,
+            b'g' => FaultSel::At(num(&p[1][1..])?),
+            b'f' => FaultSel::From(num(&p[1][1..])?),
+            b'c' => FaultSel::Ctr(num(&p[1][1..])?),
+            _ => return None,
+        };
+        let status = match p.get(2) {
+            None => "7".to_string(),
+            Some(st) if *st == "sig" || (st.bytes().all(|b| b.is_ascii_digit()) && st.parse::<u32>().map_or(false, |c| c > 0 && c < 256)) => st.to_string(),
+            _ => return None,
+        };
+        Some(FaultRule { kind: p[0].to_string(), sel, status })
+    }).collect()
+}
+
+/// kind tests on the argv (after the program name) of one stand-in invocation
+pub fn fault_kind_selects(kind: &str, prog: &str, words: &[&[u8]]) -> bool {
+    let sub = words.first().copied().unwrap_or(b"");
+    let has = |w: &[u8]| words.iter().any(|x| *x == w);
+    let docker = prog == "docker";
+    match kind {
+        "pb" => prog == "pack" && sub == b"build",
+        "sb" => prog == "pack" && sub == b"sbom",
+        "rd" => docker && sub == b"run" && has(b"--detach"),
+        "rr" => docker && sub == b"run" && !has(b"--detach"),
+        "ln" => docker && sub == b"logs" && !has(b"--follow"),
+        "lf" => docker && sub == b"logs" && has(b"--follow"),
+        "lg" => docker && sub == b"logs",
+        "ex" => docker && sub == b"exec",
+        "po" => docker && sub == b"port",
+        "rm" => docker && sub == b"rm",
+        "ri" => docker && sub == b"rmi",
+        "vr" => docker && sub == b"volume",
+        "nr" => !(docker && sub == b"rm"),
+        "any" => true,
+        _ => false,
+    }
+}
+
+/// The exit status a fault script dictates for the invocation `prog words…` that is about to become line `index` (1-based) of
+/// the stand-in log whose earlier lines are `before` (format of `standin.rs`: `<prog> h<hex word>…`). `None`: not hit.
+pub fn fault_status(script: &str, prog: &str, words: &[&[u8]], index: usize, before: &str) -> Option<String> {
+    let rules = parse_fault_rules(script)?;
+    // names given to the docker runs so far (this invocation included when it is one)
+    let mut names: Vec<Vec<u8>> = vec![];
+    let name_of = |ws: &[Vec<u8>]| ws.iter().position(|w| w == b"--name").and_then(|i| ws.get(i + 1).cloned()).unwrap_or_default();
+    for l in before.lines() {
+        let mut it = l.split(' ');
+        if it.next() != Some("docker") { continue; }
+        let ws: Vec<Vec<u8>> = it.map(|w| unhex(w.strip_prefix('h').unwrap_or("")).unwrap_or_default()).collect();
+        if ws.first().map(|w| &w[..]) == Some(b"run") { names.push(name_of(&ws)); }
+    }
+    if prog == "docker" && words.first().copied() == Some(&b"run"[..]) { names.push(name_of(&words.iter().map(|w| w.to_vec()).collect::<Vec<_>>())); }
+    for r in &rules {
+        if !fault_kind_selects(&r.kind, prog, words) { continue; }
+        let hit = match r.sel {
+            FaultSel::All => true,
+            FaultSel::At(k) => index == k,
+            FaultSel::From(k) => index >= k,
+            FaultSel::Ctr(j) => prog == "docker" && names.get(j - 1).map_or(false, |n| !n.is_empty() && words.iter().any(|w| *w == &n[..])),
+        };
+        if hit { return Some(r.status.clone()); }
+    }
+    None
+}
+
 // ------------------------------------------------------------------------------------------------ the case runner
 /// files under `root` as `relpath-hex:content-hex`, sorted by path bytes, joined by `+` (`empty` for none)
 pub fn file_snapshot(root: &Path) -> String {
@@ -243,11 +330,15 @@ pub fn run_scenario_case(fields: &[String]) -> String {
     let (Some(fixture), Some(bcfgs), Some(_), Some(tree)) = (parse_fixture(&fields[0]), parse_cfg_list(&fields[1], parse_bcfg), parse_cfg_list(&fields[2], parse_ccfg), parse_tree(&fields[3])) else { return "bad-op".into() };
     let ch = chain(&tree);
     if ch.iter().any(|i| *i >= bcfgs.len()) { return "bad-op".into(); }
-    // injection field: `<base>[@<flavour>]`; base = `-` | `z:<k>[:<status>|:sig]` | `nfp:<j>` | `nfd:<j>`
+    // injection field: `<base>[@<flavour>]`; base = `-` | `z:<k>[:<status>|:sig]` | `nfp:<j>` | `nfd:<j>` | `f:<fault script>` (see `FaultRule`)
     let (inj, flavour) = match fields[4].split_once('@') { Some((a, f)) => (a, f), None => (fields[4].as_str(), "0") };
     if flavour.parse::<u32>().map_or(true, |f| f > 3) { return "bad-op".into(); }
     let (mut fail_at, mut gone): (Option<(usize, String)>, Option<(&str, usize)>) = (None, None);
-    if inj != "-" {
+    let mut faults: Option<&str> = None;
+    if let Some(script) = inj.strip_prefix("f:") {
+        if parse_fault_rules(script).is_none() { return "bad-op".into(); }
+        faults = Some(script);
+    } else if inj != "-" {
         let parts: Vec<&str> = inj.split(':').collect();
         let Some(Ok(n)) = parts.get(1).map(|v| v.parse::<usize>()) else { return "bad-op".into() };
         if n == 0 { return "bad-op".into(); }
@@ -281,6 +372,7 @@ pub fn run_scenario_case(fields: &[String]) -> String {
     if let Some((k, status)) = &fail_at { cmd.env("STANDIN_FAIL_AT", k.to_string()).env("STANDIN_FAIL_STATUS", status); }
     cmd.env("STANDIN_FLAVOUR", flavour);
     if let Some((p, n)) = gone { cmd.env("STANDIN_GONE", format!("{p}:{n}")); }
+    if let Some(script) = faults { cmd.env("STANDIN_FAULTS", script); }
     let mut child = cmd.spawn().unwrap();
     let start = std::time::Instant::now();
     let status = loop {
